@@ -46,7 +46,7 @@ StrictlySorted(U) == \A i \in 1..(Len(U) - 1) : KeyLess(U[i], U[i + 1])
 
 \* Key schemas (the harness maps the name to the column types; the B+ tree derives its degree from them):
 \*   "v"  VARCHAR            degree 5 (the minimum)        "v6" VARCHAR(150)  degree 6
-\*   "v9" VARCHAR(100)       degree 9                      "i"  INTEGER       degree 215
+\*   "v9" VARCHAR(100)       degree 9                      "i"  INTEGER       degree 204
 \*   "iv" (INTEGER, VARCHAR) degree 5, composite, NULL components, prefix keys (arity 1) as scan bounds
 Schemas == {"v", "v6", "v9", "i", "iv"}
 Arity(schema) == IF schema = "iv" THEN 2 ELSE 1
